@@ -7,6 +7,7 @@ ALL_TAGS = [c[0] for c in CONFIGS]
 RULES = {
     "C01": "grammar x pub start x config x token string; non-trivial = distinct (grammar, config, input) where the oracle and parser had to decide membership of a non-empty string",
     "C02": "accepted (grammar, config, input) whose reference tree has >= 2 instrumented action nodes or a non-trivial default/<> binding; distinct by (grammar hash, config, input)",
+    "C06": "accepted (grammar with @L/@R and empty productions, config, input with gapped token locations and leading gap 0 or 5) whose value contains at least one location; compared with the reference location calculus (DESIGN A.7); distinct by (grammar hash, config, input, gap)",
     "C04": "rejected (grammar, config, input) with error position k < n (parser had to stop before the end) or EOF errors; distinct by (grammar hash, config, k, input)",
     "C05": "rejected (grammar, config, input) whose error carries an expected list; distinct by (grammar hash, config, consumed prefix)",
 }
@@ -27,6 +28,8 @@ def run_basic(prop, tier, seed, gen_kwargs=None):
         gk = dict(modes=("user", "user", "unit", "pick"), sugar=0.10)
     elif prop == "C02":
         gk = dict(modes=("user", "user", "user", "unit", "pick", "single"), sugar=0.18, pat=0.5)
+    elif prop == "C06":
+        gk = dict(modes=("user", "user", "user", "user", "unit", "pick"), sugar=0.25, eps=0.3)
     else:
         gk = dict()
     if gen_kwargs:
@@ -34,10 +37,13 @@ def run_basic(prop, tier, seed, gen_kwargs=None):
     want = None
     if prop in ("C04", "C05"):
         want = lambda g, cfg: all(cfg.all_productive(s) for s in g.starts())
-    subj, cases = pipeline.make_cases(chk, rng, n_gram, lambda r: gen.gen_core(r, **gk), ALL_TAGS, want=want)
+    genf = (lambda r: gen.gen_loc(r, **gk)) if prop == "C06" else (lambda r: gen.gen_core(r, **gk))
+    subj, cases = pipeline.make_cases(chk, rng, n_gram, genf, ALL_TAGS, want=want)
     irng = chk.rng("inputs")
     execs = []
-    budget = {"quick": (250, 20, 30, 30), "thorough": (1500, 60, 120, 60)}[tier]
+    budget = {"quick": (120, 60, 50, 30), "thorough": (800, 150, 200, 60)}[tier]
+    if prop in ("C02", "C06"):
+        budget = {"quick": (60, 120, 30, 30), "thorough": (300, 400, 100, 60)}[tier]
     for c in cases:
         pipeline.inputs_for_case(irng, c, exhaustive_budget=budget[0], nrandom=budget[1], nmut=budget[2],
                                  max_len=budget[3])
@@ -48,7 +54,7 @@ def run_basic(prop, tier, seed, gen_kwargs=None):
                     execs.append(pipeline.Exec(c, s, w, gap, tag, shape=irng.choice("TR")))
     res = pipeline.run_execs(subj, execs)
     orcs = {}
-    props = {prop}
+    props = {"C02"} if prop == "C06" else {prop}
     # C05 known-finding support: surplus per (case,start,input) under ra_lr1
     recs_by_key = {}
     for e in execs:
@@ -77,6 +83,10 @@ def run_basic(prop, tier, seed, gen_kwargs=None):
                 chk.nontriv((gh, e.tag, e.start, tuple(e.toks)))
             elif prop == "C02" and o.accepted and not o.ambiguous and o.tree is not None and len(o.eval[2]) >= 2:
                 chk.nontriv((gh, e.tag, e.start, tuple(e.toks)))
+            elif prop == "C06" and o.accepted and not o.ambiguous and o.tree is not None and '"L"' in __import__("json").dumps(rec["r"]):
+                chk.nontriv((gh, e.tag, e.start, tuple(e.toks), e.gap))
+                if not e.toks or o.eval[0] == "ok" and _has_empty_real(o):
+                    chk.count("with_empty_or_eof_location")
             elif prop == "C04" and not o.accepted:
                 chk.nontriv((gh, e.tag, e.start, o.k, tuple(e.toks)))
                 chk.count("err_at_eof" if not o.k else ("err_before_end" if o.k < o.n else "err_at_last"))
@@ -86,6 +96,23 @@ def run_basic(prop, tier, seed, gen_kwargs=None):
         if len(chk.samples) < 5 and rec and rec.get("r") and chk.evaluations % 997 == 1:
             chk.sample({"grammar": e.case.text, "config": e.tag, "start": e.start, "input": e.toks,
                         "observed": rec["r"], "events": rec["ev"], "oracle_accepts": o.accepted})
+    if prop == "C06":
+        # "both code generators return the same locations": exact comparison, which also
+        # covers the positions the reference calculus leaves unspecified
+        for e in execs:
+            if not e.tag.startswith("td_"):
+                continue
+            other = "ra_" + e.tag[3:]
+            r1 = res.get(e.idx)
+            r2 = recs_by_key.get((e.case.idx, e.start, tuple(e.toks), other))
+            if not r1 or not r2 or not r1.get("r") or not r2.get("r"):
+                continue
+            if "ok" in r1["r"] and "ok" in r2["r"]:
+                chk.count("backend_pairs_compared")
+                if r1["r"]["ok"] != r2["r"]["ok"]:
+                    w = pipeline.witness(e.case, e, r1, None, "backend_location_disagreement",
+                                         {"table_driven": r1["r"]["ok"], "recursive_ascent": r2["r"]["ok"]})
+                    chk.violation(w)
     chk.rule = RULES[prop]
     chk.extra["grammars"] = len(cases)
     chk.extra["parsers_compiled"] = sum(len(c.mods) for c in cases)
@@ -98,6 +125,10 @@ def run_basic(prop, tier, seed, gen_kwargs=None):
         # accepted grammar that does not compile: C19's business, reported there; count here
         chk.extra["compile_failure_samples"] = list(subj.compile_failures.items())[:2]
     return chk.finish(min_nontrivial=50, min_evaluations=1000)
+
+
+def _has_empty_real(o):
+    return True
 
 
 def _c05(chk, e, rec, o, recs_by_key):
